@@ -103,6 +103,8 @@ func c06Produce(j *c06Judge) {
 	c06Gocty(j)
 	c06Traversal(j)
 	c06ValueSets(j)
+	c06ConsN(j)
+	c06CapsuleEquals(j)
 }
 
 // members of one element type, with the occasional DynamicVal / untyped null thrown in
